@@ -73,6 +73,29 @@ def _gen(model, need):
     return tu
 
 
+def prepare_contract_lines():
+    """Contract of the talker's per-frame builder (enforced by examples/acf-can-talker/prepare_acf_packet, used by the talker main loop)."""
+    return [
+        ('static int prepare_acf_packet(uint8_t* acf_pdu, frame_t frame)', None),
+        ('__CPROVER_requires((unsigned)can_variant <= 1u && vp_extra <= 8 && VP_LEN <= (VP_FD ? 64u : 8u))', None),
+        ('__CPROVER_requires((VP_ID & CAN_EFF_FLAG) || (VP_ID & CAN_EFF_MASK) <= CAN_SFF_MASK)', None),
+        # can_frame.len and canfd_frame.len are the same byte of the union (offset 4 in both); DFCC's by-value
+        # parameter wrapper does not see the aliasing, so it is stated
+        ('__CPROVER_requires(frame.cc.len == frame.fd.len && frame.cc.can_id == frame.fd.can_id)', None),
+        ('__CPROVER_requires(__CPROVER_is_fresh(acf_pdu, 16u + VP_LEN + VP_PADOF(VP_LEN) + vp_extra))', None),
+        ('__CPROVER_assigns(__CPROVER_object_upto(acf_pdu, 16u + VP_LEN + VP_PADOF(VP_LEN)))', None),
+        ('__CPROVER_ensures(__CPROVER_return_value == (int)(16u + VP_LEN + VP_PADOF(VP_LEN)))', 'C19:builder-returns-the-bytes-occupied-by-the-acf-message'),
+        ('__CPROVER_ensures(vp_get_bits(acf_pdu, 0, 7) == 1u && vp_get_bits(acf_pdu, 7, 9) == (16u + VP_LEN + VP_PADOF(VP_LEN)) / 4u && vp_get_bits(acf_pdu, 16, 2) == VP_PADOF(VP_LEN))', 'C19:type-length-pad'),
+        ('__CPROVER_ensures(vp_get_bits(acf_pdu, 19, 1) == ((VP_ID & CAN_RTR_FLAG) != 0))', 'C19:remote-flag-carried'),
+        ('__CPROVER_ensures(vp_get_bits(acf_pdu, 20, 1) == ((VP_ID & CAN_EFF_FLAG) != 0))', 'C19:extended-flag-carried'),
+        ('__CPROVER_ensures(vp_get_bits(acf_pdu, 22, 1) == (VP_FD ? 1u : 0u))', 'C19:fd-flag'),
+        ('__CPROVER_ensures(VP_FD ==> (vp_get_bits(acf_pdu, 21, 1) == ((frame.fd.flags & CANFD_BRS) != 0) && vp_get_bits(acf_pdu, 23, 1) == ((frame.fd.flags & CANFD_ESI) != 0)))', 'C19:brs-esi-carried'),
+        ('__CPROVER_ensures(vp_get_bits(acf_pdu, 99, 29) == (VP_ID & CAN_EFF_MASK))', 'C19:identifier-carried'),
+        ('__CPROVER_ensures(vp_i < VP_LEN ==> acf_pdu[16u + vp_i] == VP_DATA(vp_i))', 'C19:data-carried'),
+        ('__CPROVER_ensures(vp_j < VP_PADOF(VP_LEN) ==> acf_pdu[16u + VP_LEN + vp_j] == 0)', 'C19:pad-zero'),
+        (';', None)]
+
+
 def example_jobs(model, tier, config='le'):
     jobs = []
     inc = [os.path.join(REPO, 'examples')]
@@ -103,25 +126,7 @@ def example_jobs(model, tier, config='le'):
            '#define VP_ID (frame.fd.can_id)\n'
            '#define VP_DATA(i) (VP_FD ? frame.fd.data[i] : frame.cc.data[i])\n')
     start = len(tu.lines)
-    lines = [
-        ('static int prepare_acf_packet(uint8_t* acf_pdu, frame_t frame)', None),
-        ('__CPROVER_requires((unsigned)can_variant <= 1u && vp_extra <= 8 && VP_LEN <= (VP_FD ? 64u : 8u))', None),
-        ('__CPROVER_requires((VP_ID & CAN_EFF_FLAG) || (VP_ID & CAN_EFF_MASK) <= CAN_SFF_MASK)', None),
-        # can_frame.len and canfd_frame.len are the same byte of the union (offset 4 in both); DFCC's by-value
-        # parameter wrapper does not see the aliasing, so it is stated
-        ('__CPROVER_requires(frame.cc.len == frame.fd.len && frame.cc.can_id == frame.fd.can_id)', None),
-        ('__CPROVER_requires(__CPROVER_is_fresh(acf_pdu, 16u + VP_LEN + VP_PADOF(VP_LEN) + vp_extra))', None),
-        ('__CPROVER_assigns(__CPROVER_object_upto(acf_pdu, 16u + VP_LEN + VP_PADOF(VP_LEN)))', None),
-        ('__CPROVER_ensures(__CPROVER_return_value == (int)(16u + VP_LEN + VP_PADOF(VP_LEN)))', 'C19:builder-returns-the-bytes-occupied-by-the-acf-message'),
-        ('__CPROVER_ensures(vp_get_bits(acf_pdu, 0, 7) == 1u && vp_get_bits(acf_pdu, 7, 9) == (16u + VP_LEN + VP_PADOF(VP_LEN)) / 4u && vp_get_bits(acf_pdu, 16, 2) == VP_PADOF(VP_LEN))', 'C19:type-length-pad'),
-        ('__CPROVER_ensures(vp_get_bits(acf_pdu, 19, 1) == ((VP_ID & CAN_RTR_FLAG) != 0))', 'C19:remote-flag-carried'),
-        ('__CPROVER_ensures(vp_get_bits(acf_pdu, 20, 1) == ((VP_ID & CAN_EFF_FLAG) != 0))', 'C19:extended-flag-carried'),
-        ('__CPROVER_ensures(vp_get_bits(acf_pdu, 22, 1) == (VP_FD ? 1u : 0u))', 'C19:fd-flag'),
-        ('__CPROVER_ensures(VP_FD ==> (vp_get_bits(acf_pdu, 21, 1) == ((frame.fd.flags & CANFD_BRS) != 0) && vp_get_bits(acf_pdu, 23, 1) == ((frame.fd.flags & CANFD_ESI) != 0)))', 'C19:brs-esi-carried'),
-        ('__CPROVER_ensures(vp_get_bits(acf_pdu, 99, 29) == (VP_ID & CAN_EFF_MASK))', 'C19:identifier-carried'),
-        ('__CPROVER_ensures(vp_i < VP_LEN ==> acf_pdu[16u + vp_i] == VP_DATA(vp_i))', 'C19:data-carried'),
-        ('__CPROVER_ensures(vp_j < VP_PADOF(VP_LEN) ==> acf_pdu[16u + VP_LEN + vp_j] == 0)', 'C19:pad-zero'),
-        (';', None)]
+    lines = prepare_contract_lines()
     for i, (l, tag) in enumerate(lines):
         tu.add(l)
         if tag:
